@@ -554,7 +554,7 @@ theorem mergeAuths_sound {room : RoomT} {old cand res : List AuthNode} {upd upd'
     admin, and — only with the intended check — user admins by an admin -/
 theorem prepareNewAuth_sound {d : Defects} {room : RoomT} {a : AuthNode} (h : prepareNewAuth d room a = .ok ()) :
     ∃ au, a.parse = .ok au ∧
-      (∀ n ∈ a.userNodes, au.canAdminUsers n.author n.mdate = true) ∧
+      (∀ n ∈ a.userNodes, au.canAdminUsers n.author n.mdate = true ∨ room.isAdmin n.author n.mdate = true) ∧
       (∀ n ∈ a.rightNodes, room.isAdmin n.author n.mdate = true) ∧
       (d.newGroupUserAdminUnchecked = false → ∀ n ∈ a.userAdminNodes, room.isAdmin n.author n.mdate = true) := by
   unfold prepareNewAuth at h
@@ -572,7 +572,7 @@ theorem prepareNewAuth_sound {d : Defects} {room : RoomT} {a : AuthNode} (h : pr
         · cases h
         · next h3 =>
           simp only [Bool.not_eq_true', Bool.not_eq_false] at h1 h2
-          refine ⟨fun n hn => List.all_eq_true.mp h1 n hn, fun n hn => List.all_eq_true.mp h2 n hn, ?_⟩
+          refine ⟨fun n hn => by simpa using List.all_eq_true.mp h1 n hn, fun n hn => List.all_eq_true.mp h2 n hn, ?_⟩
           intro hd n hn
           simp only [hd, Bool.not_false, Bool.true_and, Bool.not_eq_true', Bool.not_eq_false] at h3
           exact List.all_eq_true.mp h3 n hn
@@ -814,20 +814,40 @@ def judgeRoom (s : RStore) (cand : RoomNode) : Option RoomT :=
     | .ok r => some r
     | .error _ => none
 
-/-- the placing references of the candidate are what the repaired code requires: every entry placed by its
-    author with its list's label, every group attached by an administrator -/
+theorem placingOk_label_list {ownerEnt label : Nat} {edges : List PEdge} {nodes : List SRow}
+    (h : placingOk ownerEnt label edges nodes = true) : placingLabelOk ownerEnt label edges nodes = true := by
+  unfold placingOk at h; unfold placingLabelOk
+  simp only [List.all_eq_true, List.any_eq_true, Bool.and_eq_true, decide_eq_true_eq] at h ⊢
+  intro n hn
+  obtain ⟨e, he, ⟨⟨h1, _⟩, h3⟩, h4⟩ := h n hn
+  exact ⟨e, he, ⟨h1, h3⟩, h4⟩
+
+/-- a candidate whose references are signed by the entries' authors has in particular the labels right -/
+theorem placingOk_label {cand : RoomNode} (h : cand.placingOk = true) : cand.placingLabelOk = true := by
+  unfold RoomNode.placingOk at h; unfold RoomNode.placingLabelOk
+  simp only [Bool.and_eq_true, List.all_eq_true] at h ⊢
+  refine ⟨placingOk_label_list h.1, fun a ha => ?_⟩
+  obtain ⟨h1, h2⟩ := h.2 a ha
+  refine ⟨?_, h2⟩
+  unfold AuthNode.placingOk at h1; unfold AuthNode.placingLabelOk
+  simp only [Bool.and_eq_true] at h1 ⊢
+  exact ⟨⟨placingOk_label_list h1.1.1, placingOk_label_list h1.1.2⟩, placingOk_label_list h1.2⟩
+
+/-- the placing references of the candidate are what the repaired code requires: every entry placed with its
+    list's label and its owner's entity, every group attached by an administrator -/
 def placingGuard (s : RStore) (cand : RoomNode) : Bool :=
-  cand.placingOk &&
+  cand.placingLabelOk &&
   match judgeRoom s cand with
   | some r => groupsPlacedByAdmins r cand
   | none => true
 
-/-- the candidate has none of the shapes that the setting `d` of the switches does not check
-    (`newestFirstRead = false` is assumed: the code reads oldest first since /repo f7a29ff) -/
+/-- the candidate has none of the shapes that the setting `d` of the switches does not check: while the author of
+    a placing reference is not compared, it IS the entry's author; while labels and group references are not checked,
+    they are right (`newestFirstRead = false` is assumed: the code reads oldest first since /repo f7a29ff) -/
 def candGuardD (d : Defects) (s : RStore) (cand : RoomNode) : Bool :=
-  !d.placingEdgeUnchecked || placingGuard s cand
+  (!d.placingAuthorUnchecked || cand.placingOk) && (!d.placingEdgeUnchecked || placingGuard s cand)
 
-/-- the guard of the code as it is (trivially true once `placingEdgeUnchecked` is off) -/
+/-- the guard of the code as it is -/
 def candGuard (s : RStore) (cand : RoomNode) : Bool := candGuardD Defects.asImplemented s cand
 
 /-- with the placing guard, the switch `placingEdgeUnchecked` makes no difference inside `prepare_room_with_history` -/
@@ -860,6 +880,7 @@ theorem prepareNewRoom_placing {cand : RoomNode} (g : ∀ r, cand.parse = .ok r 
 /-- two settings of the switches that differ in `placingEdgeUnchecked` only (and read oldest first) decide the
     same on candidates that pass the placing guard -/
 theorem accept_congr_placing {d d' : Defects} (hn : d.newestFirstRead = false) (hn' : d'.newestFirstRead = false)
+    (ha : d.placingAuthorUnchecked = d'.placingAuthorUnchecked)
     (h1 : d.roomRowUnchecked = d'.roomRowUnchecked)
     (h2 : d.newGroupUserAdminUnchecked = d'.newGroupUserAdminUnchecked)
     (h3 : d.duplicateIdsUnchecked = d'.duplicateIdsUnchecked)
@@ -868,7 +889,7 @@ theorem accept_congr_placing {d d' : Defects} (hn : d.newestFirstRead = false) (
   simp only [Bool.and_eq_true] at g
   obtain ⟨gp, gj⟩ := g
   unfold accept
-  simp only [gp, Bool.not_true, Bool.and_false, Bool.false_eq_true, if_false, hn, hn', h3]
+  simp only [gp, Bool.not_true, Bool.and_false, Bool.false_eq_true, if_false, hn, hn', h3, ha]
   unfold judgeRoom at gj
   cases hroom : s.rooms.find? (·.id = cand.node.id) with
   | none =>
@@ -886,23 +907,46 @@ theorem accept_congr_placing {d d' : Defects} (hn : d.newestFirstRead = false) (
       rw [prepareWithHistory_placing (d := d) (d' := d') h1 h2 room old cand
         (fun a0 room1 ha0 hadm => by rw [ha0] at gj; simp only at gj; rw [hadm] at gj; exact gj)]
 
+/-- the switch `placingAuthorUnchecked` makes no difference on a candidate whose placing references are signed by
+    the entries' authors -/
+theorem accept_congr_author (d : Defects) (b : Bool) {s : RStore} {cand : RoomNode} (g : cand.placingOk = true) :
+    accept d s cand = accept { d with placingAuthorUnchecked := b } s cand := by
+  unfold accept prepareWithHistory roomRowFor
+  simp only [g, Bool.not_true, Bool.and_false, Bool.false_eq_true, if_false]
+  rfl
+
+/-- **the code under a setting `d` of the two placing switches decides as the intended checks do** on the candidates
+    that pass the guard of `d` (the other switches being off) -/
+theorem accept_congr_D {d : Defects} (hn : d.newestFirstRead = false) (h1 : d.roomRowUnchecked = false)
+    (h2 : d.newGroupUserAdminUnchecked = false) (h3 : d.duplicateIdsUnchecked = false)
+    {s : RStore} {cand : RoomNode} (g : candGuardD d s cand = true) : accept d s cand = accept Defects.none s cand := by
+  unfold candGuardD at g
+  simp only [Bool.and_eq_true, Bool.or_eq_true, Bool.not_eq_true'] at g
+  obtain ⟨ga, ge⟩ := g
+  -- first the author switch
+  have stepA : accept d s cand = accept { d with placingAuthorUnchecked := false } s cand := by
+    rcases ga with ga | ga
+    · have : d = { d with placingAuthorUnchecked := false } := by cases d; simp_all
+      exact congrArg (fun x => accept x s cand) this
+    · exact accept_congr_author d false ga
+  rw [stepA]
+  rcases ge with ge | ge
+  · have : ({ d with placingAuthorUnchecked := false } : Defects) = Defects.none := by
+      cases d; simp_all [Defects.none]
+    rw [this]
+  · exact accept_congr_placing (d := { d with placingAuthorUnchecked := false }) (d' := Defects.none) hn rfl rfl h1 h2 h3 ge
+
 /-- **C07_partial, as an equation**: on candidates that pass the guard of the code as it is, the code as written
     takes exactly the decision of the intended checks -/
 theorem accept_congr {s : RStore} {cand : RoomNode} (g : candGuard s cand = true) :
-    accept Defects.asImplemented s cand = accept Defects.none s cand := by
-  unfold candGuard candGuardD at g
-  by_cases hp : Defects.asImplemented.placingEdgeUnchecked = true
-  · simp only [hp, Bool.not_true, Bool.false_or] at g
-    exact accept_congr_placing (d := Defects.asImplemented) (d' := Defects.none) rfl rfl rfl rfl rfl g
-  · have : Defects.asImplemented = Defects.none := by
-      have h : Defects.asImplemented.placingEdgeUnchecked = false := by simpa using hp
-      revert h; decide
-    rw [this]
+    accept Defects.asImplemented s cand = accept Defects.none s cand :=
+  accept_congr_D rfl rfl rfl rfl g
 
 /-! #### the same for /repo before the fixes (kept as a regression statement) -/
 
 /-- /repo before the first fixes, with the placing references checked (an intermediate value for the proofs) -/
-def Defects.beforeFixesP : Defects := { Defects.beforeFixes with placingEdgeUnchecked := false, newestFirstRead := false }
+def Defects.beforeFixesP : Defects :=
+  { Defects.beforeFixes with placingEdgeUnchecked := false, placingAuthorUnchecked := false, newestFirstRead := false }
 
 theorem checkNewAuths_congr {room : RoomT} {old l : List AuthNode}
     (g : ∀ a ∈ l, old.any (·.node.id = a.node.id) = false → a.userAdminNodes = []) :
